@@ -23,7 +23,7 @@
 
 typedef struct { uint8_t key[20], nonce[16], msg[64], ad[16]; uint64_t entropy; } secrets;
 static secrets SA, SB;
-static uint8_t sink[128];
+static uint8_t sink[16500];
 static const secrets *S;
 #define MAXOPS 4
 typedef struct { const char *name; size_t size; int nops; void (*init)(void *); void (*op)(void *, int); void (*fin)(void *); } otype;
@@ -69,11 +69,11 @@ static void n##_fin(void *o) { P##_free(o); }
 KDF(kdf, ascon_kdf) KDF(kdfa, ascon_kdfa)
 #define HKDF(n, P) \
 static void n##_init(void *o) { P##_extract(o, S->key, 20, S->nonce, 16); } \
-static void n##_op(void *o, int k) { if (k < 3) P##_expand(o, S->ad, 7, sink, 5 + 30 * k); else P##_extract(o, S->msg, 33, 0, 0); } \
+static void n##_op(void *o, int k) { if (k < 2) P##_expand(o, S->ad, 7, sink, 5 + 30 * k); else if (k == 2) P##_expand(o, S->ad, 7, sink, 8140); /* towards the 255-block limit: [2,0] ends at block 255, [2,1] is refused */ else P##_extract(o, S->msg, 33, 0, 0); } \
 static void n##_fin(void *o) { P##_free(o); }
 HKDF(hkdf, ascon_hkdf) HKDF(hkdfa, ascon_hkdfa)
 static void rnd_init(void *o) { sysrand_reset(S->entropy); ascon_random_init(o); }
-static void rnd_op(void *o, int k) { if (k == 0) ascon_random_fetch(o, sink, 40); else if (k == 1) ascon_random_feed(o, S->msg, 21); else if (k == 2) ascon_random_reseed(o); else ascon_random_fetch(o, sink, 3); }
+static void rnd_op(void *o, int k) { if (k == 0) ascon_random_fetch(o, sink, 40); else if (k == 1) ascon_random_feed(o, S->msg, 21); else if (k == 2) ascon_random_reseed(o); else ascon_random_fetch(o, sink, 16384); /* reaches the automatic reseed limit */ }
 static void rnd_fin(void *o) { ascon_random_free(o); }
 #define ISAP(n, P) \
 static void n##_init(void *o) { P##_aead_init(o, S->key); } \
